@@ -429,7 +429,7 @@ class AsyncBaseClientOpenTelemetry:
     ) -> Optional[Dict[str, Any]]:
         try:
             message_dict = json.loads(message)
-        except json.JSONDecodeError as exc:
+        except ValueError as exc:
             raise GraphQLClientInvalidMessageFormat(message=message) from exc
 
         type_ = message_dict.get("type")
@@ -664,7 +664,7 @@ class AsyncBaseClientOpenTelemetry:
 
             try:
                 message_dict = json.loads(message)
-            except json.JSONDecodeError as exc:
+            except ValueError as exc:
                 raise GraphQLClientInvalidMessageFormat(message=message) from exc
 
             type_ = message_dict.get("type")
